@@ -26,6 +26,22 @@ type c13Input struct {
 	// set to nil with probability 1/NilOptional (seeded): trees with absent optional children
 	NilOptional int   `json:"nil_optional,omitempty"`
 	Seed        int64 `json:"seed,omitempty"`
+	// EmptyOptional > 0: after decorating, every optional child that is nil is set, with probability
+	// 1/EmptyOptional (seeded), to a freshly built node without content (&dst.FieldList{}, &dst.BlockStmt{},
+	// &dst.Ident{}, &dst.EmptyStmt{} ...): hand-built trees in which a child is present but empty. A
+	// non-nil child is a reachable node whatever it contains.
+	EmptyOptional int `json:"empty_optional,omitempty"`
+}
+
+// Sources that go/parser accepts and gofmt would rewrite: syntax that is present in the tree as a
+// node of its own although it has no content (an empty result list, empty declaration groups, empty
+// statements, empty blocks / field lists) or no effect (redundant parentheses around expressions,
+// types and single results). Formatted code never contains most of them.
+var c13Uncanonical = []string{
+	"package a\n\ntype T interface {\n\tM() ()\n\tN(int) ()\n}\n\nfunc f() () {\n\tg := func(int) () {}\n\tg(1)\n}\n\nfunc (t *T) m() () {}\n\nfunc h(a, b int) (c int, err error) { return }\n\nvar v func() ()\n\ntype S struct {\n\tF func(x int) ()\n\tG func(cb func() ()) (func() ())\n}\n\nfunc gen[P any]() () {}\n",
+	"package a\n\nfunc f() (int) { return (1) }\n\nfunc g() ((int)) { return ((1)) }\n\nvar x (int)\n\nvar y *(T)\n\nvar z [](map[(string)](chan (int)))\n\nfunc h(a (int), b ...(string)) (func()) { return (func() {}) }\n\ntype P (struct{})\n\nvar _ = (*T)(nil).m\n",
+	"package a\n\nimport ()\n\nconst ()\n\nvar ()\n\ntype ()\n\nvar (x int)\n\ntype (U int)\n\nfunc f() {\n\tvar ()\n\tconst ()\n\ttype ()\n}\n",
+	"package a\n\nfunc f() {\n\t;\n\t;;\n\t{\n\t}\n\t{;}\n\tfor ;; {\n\t}\n\tfor ; x; {\n\t}\n\tif ; x {\n\t} else {\n\t}\n\tswitch ; {\n\t}\n\tswitch ; x {\n\t}\n\tswitch {\n\tcase x:\n\tdefault:\n\t}\n\tselect {}\n\tselect {\n\tdefault:\n\t}\nL:\n\t;\nM:\n}\n\nfunc g();\n\ntype E struct{};\n\ntype I interface{};\n\nvar _ = T{}\n\nvar _ = []int{}\n\nvar _ = f()\n",
 }
 
 // single children that dst.go documents as "or nil" / "nil means ..."
@@ -108,6 +124,27 @@ func c13Check(in c13Input) (key, what string) {
 					if fv.IsValid() && fv.CanSet() {
 						fv.Set(reflect.Zero(fv.Type()))
 					}
+				}
+			}
+		}
+	}
+	if in.EmptyOptional > 0 {
+		rnd := rand.New(rand.NewSource(in.Seed))
+		var nodes []dst.Node
+		reflectPreorder(f, nil, &nodes)
+		for _, n := range nodes {
+			for _, fld := range c13Optional[kindOf(n)] {
+				fv := reflect.ValueOf(n).Elem().FieldByName(fld)
+				if !fv.IsValid() || !fv.CanSet() || !fv.IsNil() || rnd.Intn(in.EmptyOptional) != 0 {
+					continue
+				}
+				switch {
+				case fv.Kind() == reflect.Ptr:
+					fv.Set(reflect.New(fv.Type().Elem()))
+				case reflect.TypeOf(&dst.Ident{}).Implements(fv.Type()):
+					fv.Set(reflect.ValueOf(&dst.Ident{}))
+				case reflect.TypeOf(&dst.EmptyStmt{}).Implements(fv.Type()):
+					fv.Set(reflect.ValueOf(&dst.EmptyStmt{}))
 				}
 			}
 		}
@@ -199,7 +236,7 @@ func c13Check(in c13Input) (key, what string) {
 	}
 	// a visitor that hands out a NEW visitor per level (depth tracking): every Visit(nil) must go to
 	// the visitor that was returned for the node being closed -- compared with go/ast's Walk
-	if len(in.Prune) == 0 && in.NilOptional == 0 && !in.Resolver {
+	if len(in.Prune) == 0 && in.NilOptional == 0 && in.EmptyOptional == 0 && !in.Resolver {
 		var dl, al []string
 		dst.Walk(c13LevelVisitor{0, &dl}, f)
 		ast.Walk(c13AstLevelVisitor{0, &al}, af)
@@ -214,7 +251,7 @@ func c13Check(in c13Input) (key, what string) {
 	}
 	// (4) go/ast traversal of the source, comments removed, mapped to dst; a collapsed
 	// qualified identifier contributes one visit instead of three
-	if len(in.Prune) == 0 && in.NilOptional == 0 {
+	if len(in.Prune) == 0 && in.NilOptional == 0 && in.EmptyOptional == 0 {
 		var aseq []dst.Node
 		ast.Inspect(af, func(n ast.Node) bool {
 			switch n.(type) {
@@ -247,8 +284,9 @@ func c13Check(in c13Input) (key, what string) {
 }
 
 func c13Prop(c *Ctx) {
-	c.Res.Rule = "sources: hand corpus covering every node kind + files sampled from $GOROOT/src; each decorated without and with the goast resolver; 1 unpruned + 2 random pruning sets each; non-trivial = distinct (source, resolver, pruning set) with more than 10 nodes"
-	for _, src := range oracleSources(c, c.N(25), 20000) {
+	c.Res.Rule = "sources: hand corpus covering every node kind + parseable sources gofmt would rewrite (empty result lists, empty groups, empty statements, redundant parentheses) + files sampled from $GOROOT/src; also with optional children removed / replaced by empty hand-built nodes; each decorated without and with the goast resolver; 1 unpruned + 2 random pruning sets each; non-trivial = distinct (source, resolver, pruning set) with more than 10 nodes"
+	srcs := append(append([]string{}, c13Uncanonical...), oracleSources(c, c.N(25), 20000)...)
+	for _, src := range srcs {
 		for _, res := range []bool{false, true} {
 			for r := 0; r < 3; r++ {
 				in := c13Input{Src: src, Resolver: res}
@@ -272,6 +310,13 @@ func c13Prop(c *Ctx) {
 					c.Res.hist("c13", "optional children set to nil")
 					if key, what := c13Check(in2); key != "" {
 						c.Res.fail(key, what, in2)
+					}
+					// the same tree with absent optional children replaced by present, empty ones
+					in3 := c13Input{Src: src, Prune: in.Prune, EmptyOptional: 1 + c.Rng.Intn(3), Seed: c.Rng.Int63()}
+					c.Res.Evaluations++
+					c.Res.hist("c13", "absent optional children set to empty nodes")
+					if key, what := c13Check(in3); key != "" {
+						c.Res.fail(key, what, in3)
 					}
 				}
 				if len(c.Res.Samples) < 2 && r == 1 {
